@@ -2,8 +2,15 @@
 sympde Domain.join / get_boundary / get_subdomain / corners / Mapping on JSON cases.
 
 input : {"cases":[case..]}   (grammar: tools/props/C13.py, docstring of gen_case)
-output: {"results":[{"patches":[dom..], "pre":R?, "join":R, "getb":[R..], "sub":[R..], "corners":R?,
-                     "links":{..}} | {"crash":trace}]}
+output: {"ci_canonical": bool, "results":[{"patches":[dom..], "pre":R?, "join":R, "getb":[R..], "sub":[R..], "corners":R?,
+                     "rot":[R..], "adj":[R..], "links":{..}} | {"crash":trace}]}
+corners: [[ [patch, [coordinates], [[patch,axis,ext],[patch,axis,ext]]] per CornerBoundary ] per CornerInterface]
+         in the order of the Union / of the arguments
+corner_pops: [[face, face]..] the corners taken by not_treated_corners.pop(), in order
+rot    : Boundary.rotate( *dirs ) of the face (patch index, axis, ext)       (queries.rot = [[i,axis,ext,[dir..]]..])
+adj    : Boundary.adjacent_boundaries of the face (patch index, axis, ext)   (queries.adj = [[i,axis,ext]..])
+igetb  : NCubeInterior.get_boundary(axis, ext) on the interior of a patch    (queries.igetb = [[i,axis,ext]..])
+cbn    : CornerBoundary(face of patch i, face of patch j): its arguments     (queries.cbn = [[i,axis,ext,j,axis,ext]..])
 R     : {"ok": value} | {"err": kind}
 dom   : {"name","dim","cls","interiors":[{"name","cls","lname","map","min","max","dtype","is_interior"}],
          "boundary":[[patch,axis,ext,gname]..], "conn":[iface..] (dict order), "interfaces":[iface..] (Union order),
@@ -195,8 +202,50 @@ def guarded(f, enc):
 def enc_corners(cs):
     out = []
     for ci in as_list(cs):
-        out.append([[str(c.domain.name), [int(x) for x in c.coordinates]] for c in ci.corners])
+        out.append([[str(c.domain.name), [None if x is None else int(x) for x in c.coordinates],
+                     [enc_face(b)[:3] for b in c.boundaries]] for c in ci.corners])
     return out
+
+
+def dir_value(o):
+    return tuple(o) if isinstance(o, list) else o
+
+
+def corners_with_pops(D, pops):
+    """D.corners; `pops` receives the corners handed out by `not_treated_corners.pop()`, in order (read off the local
+    variable `corner` of Domain.get_shared_corners with a line trace: nothing in the code under test is changed)"""
+    import inspect
+    from sympde.topology.domain import Domain
+    code = Domain.get_shared_corners.__code__
+    try:
+        src, first = inspect.getsourcelines(Domain.get_shared_corners)
+        poplines = {first + k for k, l in enumerate(src) if "not_treated_corners.pop()" in l}
+    except Exception:  # noqa
+        poplines = set()
+    state = {"prev": None}
+
+    def local(frame, event, arg):
+        if event == "line":
+            if state["prev"] in poplines:
+                c = frame.f_locals.get("corner")
+                try:
+                    pops.append([enc_face(c[0])[:3], enc_face(c[1])[:3]])
+                except Exception:  # noqa
+                    pops.append(None)
+            state["prev"] = frame.f_lineno
+        return local
+
+    def tracer(frame, event, arg):
+        if event == "call" and frame.f_code is code:
+            state["prev"] = None
+            return local
+        return None
+    old = sys.gettrace()
+    sys.settrace(tracer)
+    try:
+        return D.corners
+    finally:
+        sys.settrace(old)
 
 
 def run_case(case):
@@ -221,6 +270,22 @@ def run_case(case):
     D = holder.get("D")
     out["getb"], out["sub"] = [], []
     q = case.get("queries", {})
+    # Boundary.rotate / Boundary.adjacent_boundaries on faces of the single patches
+    out["rot"], out["adj"] = [], []
+    for i, a, e, dirs in q.get("rot", []):
+        out["rot"].append(guarded(lambda: patches[i].get_boundary(axis=a, ext=e).rotate(*[dir_value(o) for o in dirs]),
+                                  lambda b: enc_face(b)))
+    out["igetb"], out["cbn"] = [], []
+    for i, a, e, j, a2, e2 in q.get("cbn", []):
+        from sympde.topology.basic import CornerBoundary
+        out["cbn"].append(guarded(lambda: CornerBoundary(patches[i].get_boundary(axis=a, ext=e),
+                                                         patches[j].get_boundary(axis=a2, ext=e2)),
+                                  lambda c: [enc_face(b) for b in c.boundaries]))
+    for i, a, e in q.get("igetb", []):
+        out["igetb"].append(guarded(lambda: patches[i].interior.get_boundary(axis=a, ext=e), lambda b: enc_face(b)))
+    for i, a, e in q.get("adj", []):
+        out["adj"].append(guarded(lambda: as_list(patches[i].get_boundary(axis=a, ext=e).adjacent_boundaries),
+                                  lambda l: [enc_face(b) for b in l]))
     if D is not None:
         out["links"] = twin_links(D)
         for tgt, a, e in q.get("getb", []):
@@ -239,11 +304,27 @@ def run_case(case):
         if q.get("corners"):
             signal.signal(signal.SIGALRM, _alarm)
             signal.alarm(10)
+            pops = []
             try:
-                out["corners"] = guarded(lambda: D.corners, enc_corners)
+                out["corners"] = guarded(lambda: corners_with_pops(D, pops), enc_corners)
             finally:
                 signal.alarm(0)
+            out["corner_pops"] = pops
     return out
+
+
+def probe_ci_canonical():
+    """does CornerInterface put two corners of the SAME patch in an order of its own (True), or does it keep the
+    order of its arguments (False: the code before "fix: the corners of a CornerInterface are in a canonical order")"""
+    try:
+        from sympde.topology import Square
+        from sympde.topology.basic import CornerBoundary, CornerInterface
+        A = Square('A')
+        c1 = CornerBoundary(A.get_boundary(axis=0, ext=-1), A.get_boundary(axis=1, ext=-1))
+        c2 = CornerBoundary(A.get_boundary(axis=0, ext=1), A.get_boundary(axis=1, ext=-1))
+        return CornerInterface(c1, c2).args == CornerInterface(c2, c1).args
+    except Exception:  # noqa
+        return None
 
 
 def main():
@@ -254,7 +335,7 @@ def main():
             res.append(run_case(case))
         except Exception:  # noqa
             res.append({"crash": traceback.format_exc()})
-    json.dump({"results": res}, open(sys.argv[2], "w"))
+    json.dump({"results": res, "ci_canonical": probe_ci_canonical()}, open(sys.argv[2], "w"))
 
 
 if __name__ == "__main__":
